@@ -117,7 +117,7 @@ func (s *optionsSc) Plan(w *World) {
 			add("netmask", []string{"255.255.255.0", "255.255.0.0", "255.255.255.252", "255.0.0.0"}[t.Pick(4)])
 		}
 		if t.Draw(2) == 1 {
-			add("mtu", []string{"1500", "1400", "576", "9000", "65535", "68"}[t.Pick(6)])
+			add("mtu", []string{"1500", "1400", "576", "9000", "65535", "68", "01500", "0576"}[t.Pick(8)])
 		}
 		if t.Draw(2) == 1 {
 			add("searchdomains", domains(t.Range(1, 4))...)
@@ -195,6 +195,9 @@ func (s *optionsSc) one(w *World) {
 		mt = dhcpv4.MessageTypeRequest
 	}
 	m := w.build4(c, mt)
+	if mt == dhcpv4.MessageTypeRequest && t.Draw(3) == 0 {
+		m.ClientIPAddr = net.IP{10, 30, 0, byte(1 + i)} // renewing: ciaddr set
+	}
 	_, hasV6only := s.plugins["ipv6only"]
 	noList := t.Draw(4) == 0
 	_ = hasV6only
@@ -218,7 +221,11 @@ func (s *optionsSc) one(w *World) {
 		meta.sent116 = true
 	}
 	li := w.listenerFor(false, c.Link)
-	w.Send(li, m.ToBytes(), src4(c), c.Link, fmt.Sprintf("%s %s prl=%v(list=%v) opt116=%v", c, mt, keysInt(meta.prl), meta.hasPRL, meta.sent116), c.ID, meta)
+	src := src4(c)
+	if !m.ClientIPAddr.IsUnspecified() {
+		src = net.UDPAddr{IP: m.ClientIPAddr, Port: 68}
+	}
+	w.Send(li, m.ToBytes(), src, c.Link, fmt.Sprintf("%s %s prl=%v(list=%v) opt116=%v ciaddr=%s", c, mt, keysInt(meta.prl), meta.hasPRL, meta.sent116, m.ClientIPAddr), c.ID, meta)
 }
 
 func keysInt(m map[int]bool) []int {
